@@ -1,6 +1,8 @@
 import CkbVerif.Driver.Util
 import CkbVerif.Model.Indexer
 import CkbVerif.Lemmas.IndexerWF
+import CkbVerif.Model.RichIndexer
+import CkbVerif.Lemmas.RichIndexer
 
 /-! Line-protocol driver for C18 (protocol: see harness/hnode/src/c18.rs). `ckbmodel C18`. -/
 namespace CkbVerif.Driver.C18
@@ -197,6 +199,27 @@ def step (st : St) (ts : List String) : St × String :=
       let fam := if k then KP_TX_LOCK_SCRIPT else KP_TX_TYPE_SCRIPT
       (st, "rawtxs " ++ joinOr "," ((transactionsByScript st.store fam q).map toString))
     | _, _ => (st, "bad-op")
+  | "cells" :: _ :: _ :: "part" :: _ => (st, "cells unsupported")
+  | "cap" :: _ :: _ :: "part" :: _ => (st, "cap unsupported")
+  | "txs" :: _ :: _ :: "part" :: _ => (st, "txs unsupported")
+  | "rtxs" :: kind :: q :: mode :: order :: limit :: grp :: f =>
+    -- `get_transactions` with a full filter: the key-value indexer answers `invalid params` for a
+    -- partial search mode and for every filter field except `script` and `block_range`
+    match parseKind? kind, parseScript? q, parseOrder? order, parseNat? limit, parseFilter? f with
+    | some k, some q, some o, some lim, some f =>
+      if mode = "part" || f.scriptLenRange.isSome || f.data.isSome || f.dataLenRange.isSome || f.capRange.isSome then
+        (st, "txs unsupported")
+      else
+        match parseMode? mode with
+        | some m =>
+          if grp = "g" then
+            (st, "txs " ++ showPages ((getTxsGroupedPages st.store k q m f.script f.blockRange o lim (st.store.length + 2) none).map
+              (·.map showTxGroup)))
+          else
+            (st, "txs " ++ showPages ((getTxsPages st.store k q m f.script f.blockRange o lim (st.store.length + 2) none).map
+              (·.map showTxRow)))
+        | none => (st, "bad-op")
+    | _, _, _, _, _ => (st, "bad-op")
   | "cells" :: kind :: q :: mode :: order :: limit :: f =>
     match parseKind? kind, parseScript? q, parseMode? mode, parseOrder? order, parseNat? limit, parseFilter? f with
     | some k, some q, some m, some o, some lim, some f =>
@@ -230,6 +253,132 @@ def step (st : St) (ts : List String) : St × String :=
     (st, s!"dump {rows.length} " ++ joinOr " " rows)
   | _ => (st, "bad-op")
 
-def main (_args : List String) : IO UInt32 := runLines ({} : St) step
+
+/-! ### the rich-indexer (SQL) stream: same op language, relational model `Model/RichIndexer.lean` -/
+namespace Rich
+open CkbVerif.Rich
+
+def parseRMode? (s : String) : Option Mode :=
+  match s with | "exact" => some .exact | "pre" => some .pre | "part" => some .part | _ => none
+
+def showTip (db : DB) : String :=
+  match CkbVerif.Rich.tip db with
+  | some (n, h) => s!"tip {n}.{h}"
+  | none => "tip none"
+
+def showRCell (a : RCell) : String :=
+  s!"{showOp a.op}@{a.cell.bn}.{a.cell.txIdx}:{a.cell.out.cap}:{a.cell.out.data.length}:{showScript a.cell.out.lock}:{showOptScript a.cell.out.type}"
+
+def showRTxRow (r : RTxRow) : String :=
+  s!"{r.tx}@{r.bn}.{r.txIdx}.{r.io}.{if r.isInput then "i" else "o"}"
+
+/-- the row without its cell: in prefix / partial mode the order of the rows INSIDE one transaction is
+the sqlite plan's business (`ORDER BY tx_id` only), so a page shows which transactions it holds -/
+def showRTxRowThin (r : RTxRow) : String := s!"{r.tx}@{r.bn}.{r.txIdx}"
+
+def cellLe (a b : Bool × Nat) : Bool :=
+  -- inputs (io_type 0) before outputs, then by index
+  (a.1 && !b.1) || (a.1 = b.1 && a.2 ≤ b.2)
+
+def showRTxGroup (g : RTxGroup) : String :=
+  let cells := ";".intercalate ((g.cells.mergeSort cellLe).map fun (i, n) => s!"{if i then "i" else "o"}{n}")
+  s!"{g.tx}@{g.bn}.{g.txIdx}[{cells}]"
+
+def showScriptId (db : DB) (id : Option Nat) : String :=
+  match id with
+  | none => "-"
+  | some _ => match scriptById db id with | some s => showScript s | none => "?"
+
+def dumpRows (db : DB) : List String :=
+  (db.blocks.map fun b => s!"B/{b.id}/{b.number}/{b.hash}") ++
+  (db.txs.map fun t => s!"X/{t.id}/{t.hash}/{t.blockId}/{t.txIndex}") ++
+  (db.outs.map fun o => s!"O/{o.id}/{o.txId}/{o.index}/{o.cap}/{showScriptId db o.lockId}/{showScriptId db o.typeId}/{showDotted o.data}/{o.spent}") ++
+  (db.ins.map fun i => s!"I/{i.outputId}/{i.consumedTx}/{i.index}") ++
+  (db.scripts.map fun s => s!"S/{showScript s.script}")
+
+/-- page budget of the ungrouped `get_transactions` walk (its cursor can cycle, see the model) -/
+def maxTxPages : Nat := 40
+
+/-- ungrouped answer: the pages of the walk (rows with their cell in exact mode, transaction only
+otherwise), then the whole answer of one unlimited call grouped per transaction with sorted cells -/
+def showUngrouped (db : DB) (k : Bool) (m : Mode) (q : Script) (f : Filter) (o : Bool) (lim : Nat) : String :=
+  let pages := getTxsPages db k m q f o lim maxTxPages none
+  let full := groupRows (sortByTx o (txRows db k m q f))
+  "txs " ++ showPages (pages.map (·.map (if m = .exact then showRTxRow else showRTxRowThin))) ++ " = " ++
+    joinOr "," (full.map showRTxGroup)
+
+def step (db : DB) (ts : List String) : DB × String :=
+  match ts with
+  | ["config", _, _] => (({} : DB), "ok")
+  | "append" :: num :: hash :: txs =>
+    match parseNat? num, parseNat? hash, txs.mapM parseTx? with
+    | some num, some hash, some txs =>
+      let d := appendBlock db ⟨num, hash, txs⟩
+      (d, showTip d)
+    | _, _, _ => (db, "bad-op")
+  | "wf" :: num :: hash :: txs =>
+    match parseNat? num, parseNat? hash, txs.mapM parseTx? with
+    | some num, some hash, some txs =>
+      let b : Block := ⟨num, hash, txs⟩
+      let bit (x : Bool) : String := if x then "1" else "0"
+      -- `l`: the hypothesis of `rich_rollback_append_partial` (the appended database is ONE layer on
+      -- top of the current one) holds whenever the block is well-formed — evaluated on every block
+      let wfb := freshTxsB db b && orderB b && noDoubleSpendB db b
+      let l := !wfb || layerCheckB db (appendBlock db b)
+      (db, s!"wf a={bit (freshTxsB db b)} o={bit (orderB b)} s={bit (noDoubleSpendB db b)} l={bit l}")
+    | _, _, _ => (db, "bad-op")
+  | ["rollback"] =>
+    let d := CkbVerif.Rich.rollback db
+    (d, showTip d)
+  | ["prune"] => (db, showTip db)      -- the rich-indexer has no pruning
+  | ["tip"] => (db, showTip db)
+  | ["live", kind, q] =>
+    match parseKind? kind, parseScript? q with
+    | some k, some q => (db, "live " ++ joinOr "," ((cellRows db k .pre q {}).map fun a => showOp a.op))
+    | _, _ => (db, "bad-op")
+  | ["rawtxs", kind, q] =>
+    match parseKind? kind, parseScript? q with
+    | some k, some q => (db, "rawtxs " ++ joinOr "," ((sortByTx false (txRows db k .pre q {})).map fun r => toString r.tx))
+    | _, _ => (db, "bad-op")
+  | "cells" :: kind :: q :: mode :: order :: limit :: f =>
+    match parseKind? kind, parseScript? q, parseRMode? mode, parseOrder? order, parseNat? limit, parseFilter? f with
+    | some k, some q, some m, some o, some lim, some f =>
+      (db, "cells " ++ showPages ((getCellsPages db k m q f o lim (db.outs.length + 2) none).map (·.map showRCell)))
+    | _, _, _, _, _, _ => (db, "bad-op")
+  | ["txs", kind, q, mode, order, limit, grp, fs, br] =>
+    match parseKind? kind, parseScript? q, parseRMode? mode, parseOrder? order, parseNat? limit,
+          parseOptScript? fs, parseRange? br with
+    | some k, some q, some m, some o, some lim, some fs, some br =>
+      let f : Filter := { script := fs, blockRange := br }
+      if grp = "g" then
+        (db, "txs " ++ showPages ((getTxsGroupedPages db k m q f o lim (db.txs.length + 2) none).map (·.map showRTxGroup)))
+      else
+        (db, showUngrouped db k m q f o lim)
+    | _, _, _, _, _, _, _ => (db, "bad-op")
+  | "rtxs" :: kind :: q :: mode :: order :: limit :: grp :: f =>
+    match parseKind? kind, parseScript? q, parseRMode? mode, parseOrder? order, parseNat? limit, parseFilter? f with
+    | some k, some q, some m, some o, some lim, some f =>
+      if grp = "g" then
+        (db, "txs " ++ showPages ((getTxsGroupedPages db k m q f o lim (db.txs.length + 2) none).map (·.map showRTxGroup)))
+      else
+        (db, showUngrouped db k m q f o lim)
+    | _, _, _, _, _, _ => (db, "bad-op")
+  | "cap" :: kind :: q :: mode :: f =>
+    match parseKind? kind, parseScript? q, parseRMode? mode, parseFilter? f with
+    | some k, some q, some m, some f =>
+      match getCellsCapacity db k m q f, CkbVerif.Rich.tip db with
+      | some c, some (n, h) => (db, s!"cap {c} {n}.{h}")
+      | _, _ => (db, "cap none")
+    | _, _, _, _ => (db, "bad-op")
+  | ["dump"] =>
+    let rows := (dumpRows db).mergeSort strLe
+    (db, s!"dump {rows.length} " ++ joinOr " " rows)
+  | _ => (db, "bad-op")
+
+end Rich
+
+def main (args : List String) : IO UInt32 :=
+  if args = ["rich"] then runLines ({} : CkbVerif.Rich.DB) Rich.step
+  else runLines ({} : St) step
 
 end CkbVerif.Driver.C18
